@@ -5,7 +5,7 @@ from ..inputs import REF, mutate, sam
 from .c01 import RULE
 
 
-def legacy_vectors():
+def legacy_vectors(quick=True, seed=1):
     """sam toMultiAlign: the hidden --trim/--trimstart/--trimend flags equal --start/--end shifted to 1-based inclusive."""
     recs = [("q%d" % i, 0, 0, "%dM" % len(REF), mutate(REF, i)) for i in range(4)]
     recs.append(("q4", 0, 5, "10M2D8M", mutate(REF, 4)[5:15] + mutate(REF, 4)[17:25]))
@@ -13,10 +13,14 @@ def legacy_vectors():
     base = ["sam", "toMultiAlign", "-s", "@in.sam"]
     vecs = []
     L = len(REF)
-    for a, b in [(0, L), (3, 20), (0, 1), (L - 1, L), (10, 11)]:
+    # every legacy window 0 <= trimstart < trimend <= L (0-based, half open) against --start trimstart+1 --end trimend
+    windows = [(a, b) for a in range(0, L) for b in range(a + 1, L + 1)]
+    if quick:
+        windows = [w for k, w in enumerate(windows) if (k + seed) % 9 == 0] + [(0, L), (0, 1), (L - 1, L)]
+    for a, b in windows:
         for pad in (False, True):
             new = base + ["--start", str(a + 1), "--end", str(b)] + (["--pad"] if pad else [])
-            old = base + ["--trim", "--trimstart", str(a), "--trimend", str(b)] + (["--pad"] if pad else [])
+            old = base + (["--trim"] if (a + b) % 2 else []) + ["--trimstart", str(a), "--trimend", str(b)] + (["--pad"] if pad else [])
             vecs.append({"id": "legacy-%d-%d-%s" % (a, b, pad), "fam": "cli", "sig": "legacy-trim-flags", "files": files,
                          "args": old, "base": {"args": new}, "reps": 1})
     # one legacy bound only
@@ -37,7 +41,7 @@ def run(ctx):
     rows, fails, _ = kernel.validate_obs(ctx, "ObsVariants", "ObsVariants.cfg", obs, tag="variants", timeout=6000)
     ctx.failures = ctx.failures[:n0] + [f for f in ctx.failures[n0:] if f["clause"].startswith("C15-") or f["clause"] in ("panic", "timeout")]
     kernel.account(ctx, rows, varcommon.nontrivial)
-    lv = legacy_vectors()
+    lv = legacy_vectors(ctx.quick, ctx.seed)
     cobs = kernel.run_vectors(ctx, "cli", lv, tag="legacy", jobs=8)
     kernel.validate_obs(ctx, "ObsC12", "ObsC12.cfg", cobs, tag="legacy")
     ctx.evaluations += len(lv)
